@@ -3,6 +3,7 @@ package rules
 import (
 	"fmt"
 	"go/ast"
+	"go/constant"
 	"go/token"
 	"go/types"
 	"strings"
@@ -256,3 +257,162 @@ func init() {
 }
 
 var _ = packages.NeedName
+
+// LOOPCLOBBER — a loop does not overwrite, at its own index, the cell of a vector that it reads at a fixed index.
+//
+// `DivFloorByLastModulusNTT` keeps the inverse transform of the last residue in `buff.Coeffs[0]` and transforms it
+// under every smaller prime into `buff.Coeffs[1]`. Writing the per-prime transform to `buff.Coeffs[i]` instead looks
+// like the natural indexed form — and overwrites `buff.Coeffs[0]` in the first iteration, so that every later prime
+// works on garbage (two-prime chains, all the tests use, are still right).
+//
+// Rule: in the body of a loop with index variable i, when some write goes to `B[i]` (destination of a ring operation,
+// an in-place method or an assignment; B any vector expression not mentioning i) no expression of the body reads
+// `B[c]` for a constant c, unless `B[c]` is also written in the body before (source order) that read, or the loop never
+// reaches c before its last iteration (ascending from a constant above c; descending down to c).
+func scanLoopClobber(c *core.Ctx) []ob {
+	var out []ob
+	n := 0
+	c.FuncDecls(func(pk *packages.Package, file *ast.File, fd *ast.FuncDecl) {
+		if fd.Body == nil || fileIsTestSupport(c.Program, fd.Pos()) || inExamples(pk) {
+			return
+		}
+		info := pk.TypesInfo
+		fkey := core.FuncKey(pk, fd)
+		ord := 0
+		ast.Inspect(fd.Body, func(x ast.Node) bool {
+			var body *ast.BlockStmt
+			var iv types.Object
+			// safeConst(c): the cell of index c is not visited, or visited by the last iteration only
+			safeConst := func(c int64) bool { return false }
+			switch l := x.(type) {
+			case *ast.ForStmt:
+				body = l.Body
+				if as, ok := l.Init.(*ast.AssignStmt); ok && len(as.Lhs) >= 1 {
+					if id, ok := as.Lhs[0].(*ast.Ident); ok {
+						iv = info.Defs[id]
+					}
+					if inc, ok := l.Post.(*ast.IncDecStmt); ok && len(as.Rhs) >= 1 {
+						if inc.Tok == token.INC {
+							// ascending from a constant a: cells below a are never written
+							if tv, ok := info.Types[as.Rhs[0]]; ok && tv.Value != nil {
+								if a, ok := constant.Int64Val(constant.ToInt(tv.Value)); ok {
+									safeConst = func(c int64) bool { return c < a }
+								}
+							}
+						} else if be, ok := l.Cond.(*ast.BinaryExpr); ok {
+							// descending to a constant lower bound b (i >= b, i > b-1): cell b is the last one visited
+							if tv, ok := info.Types[be.Y]; ok && tv.Value != nil {
+								if b, ok := constant.Int64Val(constant.ToInt(tv.Value)); ok {
+									switch be.Op {
+									case token.GEQ:
+										safeConst = func(c int64) bool { return c <= b }
+									case token.GTR:
+										safeConst = func(c int64) bool { return c <= b+1 }
+									}
+								}
+							}
+						}
+					}
+				}
+			case *ast.RangeStmt:
+				body = l.Body
+				if id, ok := l.Key.(*ast.Ident); ok && id != nil {
+					iv = info.Defs[id]
+				}
+			default:
+				return true
+			}
+			if iv == nil || body == nil {
+				return true
+			}
+			// writes to B[i]
+			varying := map[string]ast.Node{}
+			constW := map[string]token.Pos{}
+			for _, w := range collectWrites(info, body) {
+				ast.Inspect(w.target, func(y ast.Node) bool {
+					ie, ok := y.(*ast.IndexExpr)
+					if !ok {
+						return true
+					}
+					if _, isSl := info.TypeOf(ie.X).Underlying().(*types.Slice); !isSl {
+						return true
+					}
+					if id, ok := unparen(ie.Index).(*ast.Ident); ok && info.Uses[id] == iv {
+						mentionsI := false
+						ast.Inspect(ie.X, func(z ast.Node) bool {
+							if u, ok := z.(*ast.Ident); ok && info.Uses[u] == iv {
+								mentionsI = true
+							}
+							return true
+						})
+						if !mentionsI {
+							varying[exprString(ie.X)] = w.target
+						}
+					}
+					if tv, ok := info.Types[ie.Index]; ok && tv.Value != nil {
+						k := exprString(ie)
+						if p, ok := constW[k]; !ok || w.pos < p {
+							constW[k] = w.pos
+						}
+					}
+					return true
+				})
+			}
+			if len(varying) == 0 {
+				return true
+			}
+			n++
+			ord++
+			var bad *ast.IndexExpr
+			writeTargets := map[ast.Node]bool{}
+			for _, w := range collectWrites(info, body) {
+				writeTargets[unparen(w.target)] = true
+			}
+			ast.Inspect(body, func(y ast.Node) bool {
+				ie, ok := y.(*ast.IndexExpr)
+				if !ok || bad != nil {
+					return bad == nil
+				}
+				tv, ok := info.Types[ie.Index]
+				if !ok || tv.Value == nil {
+					return true
+				}
+				if _, isVar := varying[exprString(ie.X)]; !isVar {
+					return true
+				}
+				if writeTargets[ie] {
+					return true
+				}
+				if p, ok := constW[exprString(ie)]; ok && p < ie.Pos() {
+					return true // defined in this iteration before it is read
+				}
+				if cv, ok := constant.Int64Val(constant.ToInt(tv.Value)); ok && safeConst(cv) {
+					return true
+				}
+				bad = ie
+				return true
+			})
+			key := fmt.Sprintf("LOOPCLOBBER:%s#%d", fkey, ord)
+			if bad != nil {
+				out = append(out, withProps(violOb("LOOPCLOBBER", key, c.Rel(bad.Pos()), fmt.Sprintf("%s reads %s, set before the loop, in a loop that writes %s[%s]: the iteration whose index is %s overwrites the cell every later iteration reads", fkey, exprString(bad), exprString(bad.X), iv.Name(), exprString(bad.Index))), bufPropsRing(fkey)...))
+			} else {
+				out = append(out, withProps(okOb("LOOPCLOBBER", key, c.Rel(x.Pos()), "no cell read at a fixed index is also written at the loop index", true), bufPropsRing(fkey)...))
+			}
+			return true
+		})
+	})
+	c.Stats["loopclobber_loops"] = n
+	return out
+}
+
+func init() {
+	core.Register(&core.Rule{Name: "LOOPCLOBBER", Props: []string{"C02", "C01", "C04", "C07", "C18"},
+		Doc: "in a loop with index variable i that writes B[i] (ring-operation destination, in-place method, assignment), no expression of the body reads B[c] at a constant index c unless B[c] is written earlier in the same body",
+		Run: func(c *core.Ctx) []ob {
+			out := scanLoopClobber(c)
+			for _, o := range control(c, "LOOPCLOBBER", scanLoopClobber, "lvfixture.spreadResidue") {
+				out = append(out, withProps(o, "C02", "C01", "C04", "C07", "C18"))
+			}
+			return out
+		}})
+}
